@@ -1591,3 +1591,101 @@ class RavelLeavesNumpy(PyContract):
         else:
             out.append(('single-dtype-path-only-when-all-dtypes-are-the-common-one', z3.Implies(rng, dtype_of(leaf_at(k)) == to)))
         return out
+
+
+# ======================================================================================================================
+# C03: the reductions are the corresponding folds over tree_leaves / tree_iter of the same tree under the caller's options
+
+leaves_obj = z3.Function('tree_leaves_of', Ref, Ref, Bool, Str, Ref)      # the list tree_leaves(tree, options) returns
+iter_obj = z3.Function('tree_iter_of', Ref, Ref, Bool, Str, Ref)
+
+
+class FoldLike(MapVocabulary):
+    """result = <builtin>(leaves-of-tree-under-the-caller's-options, extras forwarded unchanged)."""
+    builtin = ''
+    source = 'leaves'            # 'leaves' (tree_leaves) | 'iter' (tree_iter)
+    extras = ()                  # names of the parameters forwarded to the builtin
+    missing_param = None         # parameter that may be the MISSING sentinel (then it is not passed on)
+
+    def setup(self, eng, st, fn):
+        super().setup(eng, st, fn)
+        self.entry = st.clone()
+
+    def global_name(self, eng, st, name):
+        if name.endswith('__MISSING') or name == 'MISSING':
+            return z3.Const('MISSING_SENTINEL', Ref)
+        if name in ('sum', 'max', 'min', 'all', 'any', 'isinstance', 'str', 'bytes', 'bytearray'):
+            return BuiltinV(name)
+        return super().global_name(eng, st, name)
+
+    def isinstance(self, eng, st, obj, cls):
+        tag = repr(cls)
+        return z3.Function('isinstance_' + ''.join(ch for ch in tag if ch.isalnum())[:40], Ref, Bool)(obj) if is_z3(obj) else None
+
+    def call(self, eng, st, f, args, kwargs, n, stars):
+        line = n.lineno
+        if isinstance(f, FuncV) and f.name in ('tree_leaves', 'tree_iter'):
+            is_leaf, nil, ns = kwargs.get('is_leaf', PYNONE), kwargs.get('none_is_leaf', z3.BoolVal(False)), kwargs.get('namespace', EMPTY)
+            e_is_leaf, e_nil, e_ns = self.opts(self.entry)
+            eng.oblige(st, 'III', f'{f.name}:forwards-is_leaf', eng.identical(is_leaf, e_is_leaf), line)
+            eng.oblige(st, 'III', f'{f.name}:forwards-none_is_leaf', eng.truth(st, nil) == eng.truth(st, e_nil), line)
+            eng.oblige(st, 'III', f'{f.name}:forwards-namespace', ns_str(ns) == ns_str(e_ns), line)
+            fn = leaves_obj if f.name == 'tree_leaves' else iter_obj
+            s_exc = st.clone()
+            eng.throw(s_exc, 'FlattenError', line)
+            return [(st, fn(args[0], is_leaf if is_z3(is_leaf) else PYNONE, eng.truth(st, nil), ns_str(ns)))]
+        is_fold = (isinstance(f, BuiltinV) and f.name in ('sum', 'max', 'min', 'all', 'any')) or \
+                  (isinstance(f, BoundV) and isinstance(f.obj, OpaqueV) and f.obj.tag == 'module:functools' and f.name == 'reduce')
+        if is_fold:
+            nm = f.name
+            s_exc = st.clone()
+            eng.throw(s_exc, 'FoldError', line)
+            return [(st, StructV('fold', (('op', nm), ('args', TupV(tuple(args))), ('kwargs', TupV(tuple(sorted(kwargs.items(), key=lambda kv: kv[0])))))))]
+        return super().call(eng, st, f, args, kwargs, n, stars)
+
+    def raises(self, eng, st, entry):
+        return {'FlattenError': None, 'FoldError': None}
+
+    def src(self, eng, st, entry):
+        is_leaf, nil, ns = self.opts(entry)
+        fn = leaves_obj if self.source == 'leaves' else iter_obj
+        return fn(entry.env.get('tree'), is_leaf, eng.truth(st, nil), ns_str(ns))
+
+    def post(self, eng, st, entry, ret):
+        if not (isinstance(ret, StructV) and ret.kind == 'fold'):
+            return [('result-is-the-fold', z3.BoolVal(False))]
+        args = ret.get('args').items
+        kw = dict(ret.get('kwargs').items)
+        out = [('uses-the-documented-builtin', z3.BoolVal(ret.get('op') == self.builtin))]
+        pos_leaves = 1 if self.builtin == 'reduce' else 0
+        out.append(('folds-the-leaves-of-the-tree-under-the-callers-options',
+                    z3.BoolVal(len(args) > pos_leaves) if len(args) <= pos_leaves else eng.identical(args[pos_leaves], self.src(eng, st, entry))))
+        if self.builtin == 'reduce':
+            out.append(('reduces-with-the-given-function', eng.identical(args[0], entry.env.get('func'))))
+        given = list(args[pos_leaves + 1:]) + list(kw.values())
+        names = list(self.extras)
+        miss = z3.Const('MISSING_SENTINEL', Ref)
+        for nm in names:
+            v = entry.env.get(nm)
+            passed = kw.get(nm) if nm in kw else (args[pos_leaves + 1 + names.index(nm)] if nm not in ('key', 'default') and len(args) > pos_leaves + 1 + names.index(nm) else None)
+            if nm == self.missing_param:
+                out.append((f'{nm}-is-passed-on-exactly-when-given',
+                            z3.BoolVal(passed is not None) == (v != miss) if is_z3(v) else z3.BoolVal(True)))
+                if passed is not None:
+                    out.append((f'{nm}-is-forwarded-unchanged', eng.identical(passed, v)))
+            else:
+                out.append((f'{nm}-is-forwarded-unchanged', z3.BoolVal(passed is not None) if passed is None else eng.identical(passed, v)))
+        return out
+
+
+def _mk_fold(name, builtin, source='leaves', extras=(), missing=None):
+    cls = type('Fold_' + name, (FoldLike,), {'function': name, 'builtin': builtin, 'source': source, 'extras': extras,
+                                             'missing_param': missing})
+    return pycontract(cls)
+
+
+_mk_fold('tree_reduce', 'reduce', extras=('initial',), missing='initial')
+_mk_fold('tree_max', 'max', extras=('default', 'key'), missing='default')
+_mk_fold('tree_min', 'min', extras=('default', 'key'), missing='default')
+_mk_fold('tree_all', 'all', source='iter')
+_mk_fold('tree_any', 'any', source='iter')
